@@ -20,7 +20,7 @@ theorem primBody_reuse (info : FieldInfo) (k : PrimK) (obj : GoVal) (u n : Bool)
     primBody info obj (some (.prim k u n p)) t (.ok (.sc s)) = .ok (.prim k false n c, []) := by
   unfold primBody
   simp only [hp.vk]
-  simp [assignPrim, hp.notPlaceholder, hp.noEmbed, hp.notNullable, hc]
+  simp [primStart, assignPrim, hp.notPlaceholder, hp.noEmbed, hp.notNullable, hc]
 
 /-- Echo of one scalar attribute. The plan holds `prim k u n p`; CopyFrom decoded it to the Go value `s`
 (zero when null / unknown); CopyTo back into the same plan yields `prim k false n (castTo s)`:
